@@ -458,7 +458,32 @@ func (g *Gen) genFor(d int) []L.Stmt {
 
 func (g *Gen) pairsBodyStmt() []L.Stmt { return nil }
 
+// namedFuncStmts: function statements with dotted and method names (function a.b.c:m(...) ... end), called in every way.
+func (g *Gen) namedFuncStmts() []L.Stmt {
+	id := strconv.Itoa(g.ctr)
+	g.ctr++
+	ns := "ns" + id
+	g.class("function_statement_with_field_or_method_name")
+	inner := field(field(name(ns), "a"), "b")
+	mf := fn([]string{"self", "x"}, g.n(2, "methodvararg") == 0, blk(ret(bin("==", name("self"), inner), name("x"), field(name("self"), "tag"))))
+	mf.Name = ":"
+	top := fn([]string{"self"}, false, blk(ret(field(name("self"), "tag"))))
+	top.Name = ":"
+	return []L.Stmt{&L.DoStmt{Body: blk(
+		local1(ns, tbl(kv(str("tag"), str("ns")), kv(str("a"), tbl(kv(str("b"), tbl(kv(str("tag"), str("inner")))))))),
+		&L.FuncStmt{Target: field(name(ns), "f"), Fn: fn([]string{"x"}, false, blk(ret(name("x"), str("ns.f"))))},
+		&L.FuncStmt{Target: field(inner, "g"), Fn: fn([]string{"x", "y"}, true, blk(ret(name("y"), name("x"), call(name("select"), str("#"), &L.VarargExpr{}))))},
+		&L.FuncStmt{Target: field(inner, "m"), Fn: mf},
+		&L.FuncStmt{Target: field(name(ns), "t"), Fn: top},
+		emit(call(field(name(ns), "f"), num(1)), call(field(inner, "g"), num(1), num(2), num(3))),
+		emit(mcall(inner, "m", num(3)), call(field(inner, "m"), name(ns), num(4)), mcall(name(ns), "t")),
+		emit(call(name("type"), field(inner, "m")), call(name("rawget"), name(ns), str("g"))))}}
+}
+
 func (g *Gen) funcDecl(d int) []L.Stmt {
+	if g.n(8, "namedfuncstmt") == 0 {
+		return g.namedFuncStmts()
+	}
 	fi := &FuncInfo{}
 	n := g.fresh("f")
 	form := g.n(3, "funcform")
